@@ -10,6 +10,7 @@ import PynModel.Kernels.Eta
 import PynModel.Core.Trial
 import PynModel.Core.Interp
 import PynModel.Core.ISetOps
+import PynModel.Process.RandomizeGroup
 /-!
 # Line protocol, part 2: container-level operations (series constructor and histories)
 `snew <t> <rows> <sup|none>`            → `t|rows|sup|num/den`
@@ -352,6 +353,45 @@ def isetStep (toks : List String) : String :=
     | none => "bad-op"
   | _ => "bad-op"
 
+/-- members `k@t` joined by `+`; draws / permutations joined by `/`
+`gshift <members> <a> <b> <shifts>` · `gjitter <members> <draws> <sup|none>` · `gshuffle <members> <perms>` → the group -/
+def parseKT (s : String) : Option (List (Int × Array Int)) :=
+  if s == "-" then some [] else
+  (s.splitOn "+").foldr (fun x acc => match x.splitOn "@", acc with
+    | [k, t], some l => match k.toInt?, parseArr t with
+      | some k, some t => some ((k, t) :: l)
+      | _, _ => none
+    | _, _ => none) (some [])
+
+def parseArrs (s : String) : Option (List (Array Int)) :=
+  (s.splitOn "/").foldr (fun x acc => match parseArr x, acc with
+    | some a, some l => some (a :: l)
+    | _, _ => none) (some [])
+
+def showGE (r : Except GErr Group) : String :=
+  match r with
+  | .ok g => showGroup g
+  | .error e => showGErr e
+
+def rgroupStep (toks : List String) : String :=
+  match toks with
+  | ["gshift", ms, a, b, sh] =>
+    match parseKT ms, a.toInt?, b.toInt?, parseArr sh with
+    | some ms, some a, some b, some sh => if sh.size = ms.length then showGE (shiftGroup ms a b sh.toList) else "pre-fail"
+    | _, _, _, _ => "bad-op"
+  | ["gjitter", ms, dr, sup] =>
+    match parseKT ms, parseArrs dr, parseSupOpt sup with
+    | some ms, some dr, some sup =>
+      if dr.length = ms.length ∧ (List.zipWith (fun m (j : Array Int) => decide (m.2.size = j.size)) ms dr).all id then
+        showGE (jitterGroup ms dr sup) else "pre-fail"
+    | _, _, _ => "bad-op"
+  | ["gshuffle", ms, pm] =>
+    match parseKT ms, parseArrs pm with
+    | some ms, some pm =>
+      if pm.length = ms.length then showGE (shuffleGroup ms (pm.map fun p => p.toList.map Int.toNat)) else "pre-fail"
+    | _, _ => "bad-op"
+  | _ => "bad-op"
+
 def stepAll (line : String) : String :=
   let toks := (line.trimAscii.toString.splitOn " ").filter (· ≠ "")
   match toks with
@@ -378,6 +418,9 @@ def stepAll (line : String) : String :=
   | "imclose" :: _ => isetStep toks
   | "itspan" :: _ => isetStep toks
   | "ifsup" :: _ => isetStep toks
+  | "gshift" :: _ => rgroupStep toks
+  | "gjitter" :: _ => rgroupStep toks
+  | "gshuffle" :: _ => rgroupStep toks
   | _ => kernelStep toks
 
 end Pyn
